@@ -32,7 +32,7 @@ from sleap_nn.inference.bottomup import BottomUpInferenceModel
 from sleap_nn.inference.paf_grouping import PAFScorer
 from sleap_nn.architectures.model import Model
 from loguru import logger
-from sleap_nn.training.utils import xavier_init_weights
+from sleap_nn.training.utils import xavier_init_weights, mask_api_key
 import matplotlib.pyplot as plt
 
 MODEL_WEIGHTS = {
@@ -166,8 +166,8 @@ class TrainingModel(L.LightningModule):
 
     def on_save_checkpoint(self, checkpoint):
         """Configure checkpoint to save parameters."""
-        # save the config to the checkpoint file
-        checkpoint["config"] = self.config
+        # save the config to the checkpoint file (never the wandb API key)
+        checkpoint["config"] = mask_api_key(self.config)
 
     def on_train_epoch_start(self):
         """Configure the train timer at the beginning of each epoch."""
